@@ -735,15 +735,18 @@ def step(cl, obs, event):
 
 
 def advance(cl, obs, event, with_reports):
-    """One event with the whole oracle and the continuation rule.
-    -> (violations, features, obs to continue with or None = cut, info, maps)"""
+    """One event with the oracle and the continuation rule; with_reports adds clause (5) on the memory the history
+    continues with. -> (violations, features, obs to continue with or None = cut, info, maps)"""
     v, new, info, maps = step(cl, obs, event)
-    if not v and with_reports:
-        v = check_reports(cl, cl.report_dir, new)
     feats = [trigger_features(event, inv, obs, maps) for _c, _e, _g, inv in v]
-    if not v:
-        return v, feats, new, info, maps
-    return v, feats, forgive(new, v, feats), info, maps
+    cont = forgive(new, v, feats) if v else new
+    if with_reports and cont is not None:
+        v2 = check_reports(cl, cl.report_dir, cont)
+        if v2:
+            v = v + v2
+            feats = feats + [trigger_features(event, inv, obs, maps) for _c, _e, _g, inv in v2]
+            cont = forgive(cont, v, feats)
+    return v, feats, cont, info, maps
 
 
 def case_keywords(case):
@@ -835,8 +838,8 @@ def replay(case):
     return out
 
 
-def mk_case(hist):
-    return {"fqdn": FQDN, "keywords": list(KEYWORDS), "delimiter": DELIM, "history": hist}
+def mk_case(hist, keywords=None):
+    return {"fqdn": FQDN, "keywords": list(keywords or KEYWORDS), "delimiter": DELIM, "history": hist}
 
 
 # ---- event menus, units ------------------------------------------------------------------------------
@@ -855,7 +858,7 @@ def menu(fam, tier):
 
 
 def event_families(event):
-    return set(TOKEN_FAMILY[KIND[split_token(t)[0]]] for line in event for t in line)
+    return set(TOKEN_FAMILY[KIND[t]] for line in norm_event(event)["lines"] for t in line_originals(line))
 
 
 def obs_families(obs):
@@ -869,31 +872,129 @@ def skipped(fam, obs, event):
     return len(obs_families(obs) | event_families(event)) == 1
 
 
+# ---- the "shapes" family: explicit short histories over token shapes, channels and call options -----------
+
+SH = {"ip": IPS + BOUNDARY_IPS, "host": HOSTS + [HOST_CASE_VARIANT, OBF_FQDN], "mac": MACS + BOUNDARY_MACS, "ipv6": V6S}
+SH_SMALL = {"ip": IPS, "host": HOSTS, "mac": MACS, "ipv6": V6S}
+# literal text that may sit directly between / next to originals. Only characters the unchanged code treats as a
+# boundary for the kind are used: a word character glued to the LEFT of an IPv4 address or of a host name makes it
+# a different word for the detection patterns (C08 excludes those as well); ':' and '-' next to a MAC are C08's known
+# finding; '-' '_' '.' are host-name characters; IPv6 takes '(' '=' ')' '/64'.
+DELIMS = {"ip": [":", "/", ",", "=", "-", "("], "host": [":", "/", ",", "=", "(", "@"], "mac": ["/", ",", "=", "(", "_"]}
+RIGHT_GLUE = {"ip": ["", "x", "_y", ".", ":80", "/24", "X9"], "host": ["", "x", ":22", "/", "_y"],
+              "mac": ["", "x", "g", "_", ")"], "ipv6": ["", "/64", ")"]}
+LEFT_GLUE = {"ip": ["", "-", "=", "(", "/", ":"], "host": ["", "=", "(", "@"], "mac": ["", "x", "=", "("],
+             "ipv6": ["", "(", "="]}
+EXEMPT_NAME = {"ip": "ip", "host": "hostname", "mac": "mac", "ipv6": "ipv6"}
+CHANNELS = {"ip": MODES, "host": ("content", "string", "file"), "mac": ("content", "string", "file"),
+            "ipv6": ("content", "string", "file")}
+SHAPE_CHUNK = 250
+_SHAPES = {}
+
+
+def shape_cases():
+    """group -> list of case descriptors (deterministic, no repetition)."""
+    if _SHAPES:
+        return _SHAPES
+    g = _SHAPES
+    pairs = lambda xs: itertools.product(xs, repeat=2)
+    # adjacent: two originals of one kind separated by a single delimiter character inside one token,
+    # before / after their plain occurrences; and both glued on one line
+    adj = g.setdefault("adjacent", [])
+    for kind in ("ip", "host", "mac"):
+        for a, b in pairs(SH[kind]):
+            for d in DELIMS[kind]:
+                adj.append(mk_case([[[a, b]], [[[a, d, b]]]]))
+                adj.append(mk_case([[[[a, d, b]]], [[b], [a]]]))
+            adj.append(mk_case([[[a, b]], [[[a, "x"], [b, "_y"]]]]))
+            adj.append(mk_case([[[[a, "_y"], [b, "x"]]], [[b, a]]]))
+    # glue: one original with literal text directly on its left and / or right, before / after a plain occurrence
+    glue = g.setdefault("glue", [])
+    for kind in ("ip", "host", "mac", "ipv6"):
+        for a in SH[kind]:
+            for l, r in itertools.product(LEFT_GLUE[kind], RIGHT_GLUE[kind]):
+                if not l and not r:
+                    continue
+                tok = ([l] if l else []) + [a] + ([r] if r else [])
+                glue.append(mk_case([[[a]], [[tok]]]))
+                glue.append(mk_case([[[tok]], [[a]]]))
+    # channels: the same originals through clean_content(list) / clean_content(str) / width=True / clean_file /
+    # clean_file on netstat_-neopa, in every ordered pair of channels on ONE Cleaner
+    chan = g.setdefault("channels", [])
+    for kind in ("ip", "host", "mac", "ipv6"):
+        for a, b in pairs(SH_SMALL[kind]):
+            for m1, m2 in pairs(CHANNELS[kind]):
+                if (m1, m2) == ("content", "content"):
+                    continue
+                chan.append(mk_case([{"lines": [[a, b]], "mode": m1}, {"lines": [[b, a]], "mode": m2}]))
+    for a, b in pairs(IPS):
+        for m in ("file", "file-netstat", "width"):
+            chan.append(mk_case([{"lines": [[a], [b]], "mode": m}, [[b, a]]]))
+    for a, h, m in itertools.product(IPS[:3], HOSTS, ("file", "file-netstat", "string", "width")):
+        chan.append(mk_case([[[a, h, MAC1]], {"lines": [[MAC1, h, a, "SECRETKW"]], "mode": m}]))
+    # exempt: a spec exempted through no_obfuscate between / around specs that are not
+    ex = g.setdefault("exempt", [])
+    for kind in ("ip", "host", "mac", "ipv6"):
+        name = EXEMPT_NAME[kind]
+        for a, b in pairs(SH_SMALL[kind]):
+            n1, n2 = [[a, b]], [[b, a]]
+            e = {"lines": [[a, b]], "no_obfuscate": [name]}
+            ex.append(mk_case([n1, e, n2]))
+            ex.append(mk_case([e, n1, e, n2]))
+            ex.append(mk_case([e, {"lines": [[b], [a]], "no_obfuscate": [name]}, n2]))
+    for a, h in itertools.product(IPS[:3], HOSTS):
+        for name in ("ip", "hostname", "mac", "keyword"):
+            e = {"lines": [[a, h, MAC1, "SECRETKW"]], "no_obfuscate": [name]}
+            ex.append(mk_case([e, [[h, a, "SECRETKW", MAC1]], e]))
+    # kw11: eleven configured keywords (keyword0 .. keyword10)
+    kw = g.setdefault("kw11", [])
+    for a, b in pairs(KW11):
+        kw.append(mk_case([[[a, b]], [[b], [a]]], KW11))
+    kw.append(mk_case([[list(KW11)], [list(reversed(KW11))], [[KW11[10], KW11[1]]]], KW11))
+    # second-cleaner: a second Cleaner in the same process starts from nothing (oracle memory reset, clause 4
+    # is evaluated against what the second one was fed)
+    sec = g.setdefault("second-cleaner", [])
+    for kind in ("ip", "host", "mac", "ipv6"):
+        for a, b, c in itertools.product(SH_SMALL[kind], repeat=3):
+            sec.append(mk_case([[[a, b]], {"lines": [[c]], "new_cleaner": True}, [[c, a]]]))
+    # blank: empty lines inside a spec and an all-blank spec inside a history
+    bl = g.setdefault("blank", [])
+    for a, b in pairs(IPS):
+        bl.append(mk_case([[[a], [], [b]], [[b, a]]]))
+        bl.append(mk_case([[[], [a]], [[b], []], [[a, b]]]))
+        bl.append(mk_case([{"lines": [[a], [], [b]], "mode": "file"}, [[]], [[b, a]]]))
+    # fresh-process: the second Cleaner of a process against the first Cleaner of a fresh interpreter
+    fp = g.setdefault("fresh-process", [])
+    h1 = [[["1.2.3.4", "db.corp.test"], [MAC1, "SECRETKW"]], [["10.1.1.1", V6_1, "mail.corp.test"]]]
+    for h2 in ([[["100.200.100.200", "b.corp.test", MAC1]]],
+               [[["1.2.3.4"], ["web01", "db.corp.test"]], [[V6_1, "52-54-00-12-34-56", "SECRETKW", "1.2.3.4"]]],
+               [[["10.230.230.2", "a.b.corp.test"]], [["10.230.230.1", "mail.corp.test", "db.corp.test"]]]):
+        fp.append({"kind": "fresh-process", "history": h1, "second": h2})
+    return g
+
+
 _DEPTH1 = {}
 
 
 def depth1(fam, tier):
     """Global de-duplication of depth-1 states: -> (groups, keys)
-    groups: list of representative first-event indices (one per distinct violation-free depth-1 state),
+    groups: list of representative first-event indices (one per distinct depth-1 state the search continues from),
     keys: set of canonical keys of all those states. Computed once in the parent (forked workers inherit it)."""
     k = (fam, tier)
     if k in _DEPTH1:
         return _DEPTH1[k]
     evs = menu(fam, tier)
-    reps, keys, bad = [], {}, set()
+    reps, keys = [], {}
     with tmp.scratch("c09u") as d:
         snaps = Snapshots(d)
         init = snaps.take(new_cleaner(d), [])
         for i, ev in enumerate(evs):
             cl = snaps.give(init)
-            v, obs, _info, maps = step(cl, {}, ev)
-            if v:
+            _v, _feats, cont, _info, maps = advance(cl, {}, ev, True)
+            if cont is None:                    # cut: reported by the depth1 unit
                 continue
-            key = canon(maps, obs)
-            if key not in keys and key not in bad:
-                if check_reports(cl, d, obs):      # clause (5) fails in this state: reported by the depth1 unit, cut
-                    bad.add(key)
-                    continue
+            key = canon(maps, cont)
+            if key not in keys:
                 keys[key] = i
                 reps.append(i)
     _DEPTH1[k] = (reps, set(keys))
@@ -905,6 +1006,9 @@ def units(tier, seed):
     for kind in ("ip", "host"):
         for order in ("asc", "desc", "revisit"):
             us.append({"fam": "counter", "part": "longrun", "kind": kind, "order": order})
+    for group, cases in sorted(shape_cases().items()):
+        for lo in range(0, len(cases), SHAPE_CHUNK):
+            us.append({"fam": "shapes", "part": "cases", "group": group, "lo": lo, "hi": min(len(cases), lo + SHAPE_CHUNK)})
     for fam in FAMILY_ORDER:
         us.append({"fam": fam, "part": "depth1"})
         if BOUNDS[tier]["families"][fam]["depth"] < 2:
@@ -931,6 +1035,10 @@ def _fkey(clause, feats):
     return (clause, json.dumps(feats, sort_keys=True))
 
 
+def _strip_index(f):
+    return {x: y for x, y in f.items() if x != "violating_event_index"}
+
+
 def run_unit(unit, tier):
     res = Result()
     fam = unit["fam"]
@@ -945,9 +1053,29 @@ def run_unit(unit, tier):
         res.maxi("max_history_length", len(hist))
         for clause, exp, got, f in vio:
             k = f.get("violating_event_index", len(hist) - 1)
-            f = dict(f)
-            f.pop("violating_event_index", None)
-            res.violation(clause, mk_case(hist[:k + 1]), exp, got, f)
+            res.violation(clause, mk_case(hist[:k + 1]), exp, got, _strip_index(f))
+        return res
+    if unit["part"] == "cases":
+        group = unit["group"]
+        cases = shape_cases()[group][unit["lo"]:unit["hi"]]
+        for case in cases:
+            vio, stats = run_history(case)
+            res.case(nontrivial=stats["recurrences"] > 0,
+                     outcome="shape:%s:%s" % (group, ",".join(sorted(set("%s/%s" % (c, f.get("trigger")) for c, _e, _g, f in vio)))))
+            res.traces += 1
+            res.transitions += stats["events"]
+            res.stat("shape_cases_" + group)
+            if stats.get("forgiven_events"):
+                res.stat("shape_cases_continued_past_known_trigger")
+            for clause, exp, got, f in vio:
+                vc = case
+                k = f.get("violating_event_index")
+                if k is not None and "history" in case and case.get("kind") is None and k < len(case["history"]) - 1:
+                    vc = dict(case)
+                    vc["history"] = case["history"][:k + 1]
+                res.violation(clause, vc, exp, got, _strip_index(f))
+        if cases:
+            res.samples.append(cases[len(cases) // 2])
         return res
     depth_bound = BOUNDS[tier]["families"][fam]["depth"]
     evs = menu(fam, tier)
@@ -959,21 +1087,19 @@ def run_unit(unit, tier):
         res.notes.append("state snapshots by %s of the whole live Cleaner" % snaps.mode)
         init = snaps.take(new_cleaner(d), [])
 
-        def record(hist, event, viols, before, maps):
+        def record(hist, event, viols, feats):
             """Violations of one transition. Each kind is first re-executed from the initial state through
             check_case (the replay entry point); the explorer and the replay must agree."""
             res.stat("violating_transitions")
             case = mk_case(hist + [event])
             replayed = None
-            for clause, exp, got, inv in viols:
-                f = trigger_features(event, inv, before, maps)
+            for (clause, exp, got, _inv), f in zip(viols, feats):
                 k = _fkey(clause, f)
                 if confirmed.get(k, 0) < CONFIRM_PER_KIND:
                     if replayed is None:
                         replayed = check_case(case)
                         res.stat("full_replays_from_initial_state")
-                    same = [r for r in replayed if r[0] == clause and
-                            {x: y for x, y in r[3].items() if x != "violating_event_index"} == f]
+                    same = [r for r in replayed if r[0] == clause and _strip_index(r[3]) == f]
                     if not same or same[0][3].get("violating_event_index") != len(hist):
                         raise RuntimeError("explorer and replay disagree on %r: explorer %r / replay %r"
                                            % (case, (clause, f), replayed))
@@ -984,7 +1110,7 @@ def run_unit(unit, tier):
         def transition(hist, snap, obs, event):
             """-> (key, live Cleaner, obs, maps) of the successor, or None when the branch is cut."""
             cl = snaps.give(snap)
-            v, new, info, maps = step(cl, obs, event)
+            v, feats, cont, info, maps = advance(cl, obs, event, False)
             res.evals += 1
             res.transitions += 1
             res.traces += 1            # one more distinct history whose last step ran against the real code
@@ -998,9 +1124,11 @@ def run_unit(unit, tier):
                 res.stat("transitions_with_unreplaced_original_equal_to_issued_substitute")
             res.outcomes.add(",".join(sorted(info["tags"])))
             if v:
-                record(hist, event, v, obs, maps)
-                return None
-            return canon(maps, new), cl, new, maps
+                record(hist, event, v, feats)
+                if cont is None:
+                    return None
+                res.stat("transitions_continued_past_known_trigger")
+            return canon(maps, cont), cl, cont, maps
 
         def admit(hist, event, cl, obs, before, maps):
             """A newly discovered state (cl is the live Cleaner in exactly that state): clause (5) on the real
@@ -1008,7 +1136,7 @@ def run_unit(unit, tier):
             res.stat("states_report_checked")
             v = check_reports(cl, d, obs)
             if v:
-                record(hist, event, v, before, maps)
+                record(hist, event, v, [trigger_features(event, inv, before, maps) for _c, _e, _g, inv in v])
                 return None
             snap = snaps.take(cl, hist + [event])
             newstates[0] += 1
@@ -1016,7 +1144,7 @@ def run_unit(unit, tier):
                 with tmp.scratch("c09x") as d2:
                     c2 = new_cleaner(d2)
                     for e in hist + [event]:
-                        c2.clean_content(event_lines(e))
+                        execute(c2, norm_event(e))
                     res.stat("full_replays_from_initial_state")
                     if canon(read_mappings(c2), {}) != canon(read_mappings(snaps.give(snap)), {}):
                         raise RuntimeError("restored snapshot differs from the replayed history %r" % (hist + [event],))
@@ -1045,9 +1173,9 @@ def run_unit(unit, tier):
         # subtree below one distinct depth-1 state
         first = unit["first"]
         cl1 = snaps.give(init)
-        v, obs1, _info, maps1 = step(cl1, {}, first)
-        if v:
-            raise RuntimeError("first event of a subtree unit violates: %r" % (first,))
+        _v, _feats, obs1, _info, maps1 = advance(cl1, {}, first, True)
+        if obs1 is None:
+            raise RuntimeError("first event of a subtree unit is cut: %r" % (first,))
         s1 = snaps.take(cl1, [first])
         _reps, keys1 = depth1(fam, tier)
         if canon(maps1, obs1) not in keys1:
